@@ -1434,3 +1434,52 @@ def rf120(run, units=('gen', 'mir')):
     if n < 8:
         raise F.AnalysisBroken('RF120: only %d growth loops found' % n)
     return n
+
+
+# ---------------------------------------------------------------------------------------------
+# RF123: the address of an item changes only in a load or link step
+# ---------------------------------------------------------------------------------------------
+
+RF123_WRITERS = {
+    'create_item': 'initialisation to NULL',
+    'setup_global': 'a load step records the definition in the environment',
+    'load_bss_data_section': 'a load step places data',
+    'MIR_load_module': 'a load step gives a function its thunk',
+    'MIR_link': 'a link step binds imports, exports and forwards',
+    '_MIR_builtin_func': 'registration of a builtin (a load of an external)',
+}
+
+
+def rf123(run):
+    rule = 'RF123'
+    run.rule(rule, 'who may write MIR_item_t.addr: the binding of a name is what the last load / link step made it.  In mir.c, mir-interp.c and '
+                   'the generator, `item->addr` is assigned only by the load and link steps (frozen table of six functions, one reason each); '
+                   'an engine that refreshes an import from ref_def when it first runs a function rebinds an already linked module without '
+                   'a link step, and the engines disagree')
+    n = 0
+    seen = set()
+    for u in ('mir', 'gen'):
+        tu = run.tu(u)
+        for g in tu.func_list:
+            if not g.file.startswith('/repo') or g.body is None:
+                continue
+            for x in g.walk():
+                if x['k'] in ('BinaryOperator', 'CompoundAssignOperator') and x['op'].endswith('=') and x['op'] not in ('==', '!=', '<=', '>='):
+                    l = F.strip(x['c'][0])
+                    if l['k'] == 'MemberExpr' and l['n'] == 'addr' and 'MIR_item' in tu.type(l['c'][0]).s:
+                        key = (g.relfile(), g.name, x['l'])
+                        if key in seen:
+                            continue
+                        seen.add(key)
+                        n += 1
+                        ok = g.name in RF123_WRITERS
+                        run.functions_analysed.add((u, g.name))
+                        run.ob(rule, key, ok, {'site': '%s:%d %s' % key[:1] + key[2:3] + key[1:2] if False else '%s:%d %s' % (key[0], key[2], key[1]),
+                                               'reason': RF123_WRITERS.get(g.name)} if n % 4 == 1 or not ok else None)
+                        if not ok:
+                            run.violation(rule, g, 'item address written outside load/link', '`%s` in %s changes the address of an item outside the load '
+                                          'and link steps: a module that was linked earlier sees a definition loaded afterwards (and only in this '
+                                          'engine)' % (F.src(x)[:70], g.name), line=x['l'])
+    if n < 10:
+        raise F.AnalysisBroken('RF123: only %d writes of item->addr found' % n)
+    return n
